@@ -126,7 +126,7 @@ def main():
         # longest first
         order = sorted(enumerate(shards), key=lambda x: -x[1].get("weight", 1))
         merged = {"evaluations": 0, "hashes": set(), "states": set(), "counters": {}, "violations": [],
-                  "vio_total": 0, "samples": [], "reach": {}, "exhaustive": {}, "attached": [],
+                  "vio_total": 0, "samples": [], "reach": {}, "lines": {}, "exhaustive": {}, "attached": [],
                   "extra": {}, "shards": [], "rule": meta["rule"]}
         with concurrent.futures.ThreadPoolExecutor(max_workers=max(1, a.jobs)) as ex:
             for s, r, hs, ss in ex.map(one, order):
@@ -141,6 +141,8 @@ def main():
                     merged["counters"][k] = merged["counters"].get(k, 0) + v
                 for k, v in r.get("reach", {}).items():
                     merged["reach"][k] = merged["reach"].get(k, 0) + v
+                for k, v in r.get("lines", {}).items():
+                    merged["lines"].setdefault(k, set()).update(v)
                 merged["violations"].extend(r["violations"])
                 merged["vio_total"] += r["vio_total"]
                 if len(merged["samples"]) < 12:
@@ -164,9 +166,30 @@ def main():
                     inconclusive.append("monitor never evaluated: " + need)
             if merged["evaluations"] == 0:
                 inconclusive.append("no case was executed")
+        merged["line_coverage"] = line_coverage(repo, meta.get("anchors", []), merged["lines"])
         return finish(prop, a, t0, merged, merged["violations"], inconclusive, meta, repo)
     finally:
         shutil.rmtree(work, ignore_errors=True)
+
+
+def line_coverage(repo, anchors, seen):
+    """Per anchored file: function-body lines executed by this run / all of them, and the functions holding lines that
+    never ran (what the run says nothing about)."""
+    sys.path.insert(0, ROOT)
+    from rv import lines as L
+    out = {}
+    for rel in anchors:
+        short = rel.split("mingus/", 1)[-1]
+        fl = L.function_lines(os.path.join(repo, rel))
+        if not fl:
+            continue
+        got = set(seen.get(short, ())) & set(fl)
+        missing = {}
+        for l in sorted(set(fl) - got):
+            missing.setdefault(fl[l], []).append(l)
+        out[short] = {"function_lines": len(fl), "executed": len(got),
+                      "never_executed": dict((k, v if len(v) <= 12 else v[:12] + ["+%d more" % (len(v) - 12)]) for k, v in sorted(missing.items()))}
+    return out
 
 
 def finish(prop, a, t0, merged, violations, inconclusive, meta, repo):
@@ -209,6 +232,9 @@ def finish(prop, a, t0, merged, violations, inconclusive, meta, repo):
             len(merged["shards"]), wall))
         for k in sorted(merged["counters"]):
             print("   monitor %-70s %9d evaluations" % (k[:70], merged["counters"][k]))
+        for k, v in sorted(merged.get("line_coverage", {}).items()):
+            print("   lines   %-40s %4d of %4d function-body lines executed; functions with lines never executed: %d" % (
+                k, v["executed"], v["function_lines"], len(v["never_executed"])))
     for v in uniq:
         print("   violated clause: %s | mechanism: %s | x%d" % (v["clause"], v.get("mechanism"), v.get("count", 1)))
         print("      witness : %s" % json.dumps(v["witness"], default=str)[:600])
@@ -255,6 +281,7 @@ def write_evidence(prop, a, m, uniq, known_seen, inconclusive, wall, repo):
             "contract_evaluations": m["counters"],
             "reach": reach,
             "functions_reached": len(m["reach"]),
+            "line_coverage_of_anchored_files": m.get("line_coverage", {}),
             "exhaustive_subspaces": m["exhaustive"],
             "exhaustive": False,
             "monitors_attached": m["attached"],
